@@ -35,6 +35,8 @@ Definition s_mi (p : profile) (e : endian) (file : bytes) (ds : list dirent) := 
 Definition s_ti (p : profile) (e : endian) (file : bytes) (ds : list dirent) := get_stream file ds ST_THREAD_INFO (read_thread_info_list p e).
 Definition s_tn (p : profile) (e : endian) (file : bytes) (ds : list dirent) := get_stream file ds ST_THREAD_NAMES (read_thread_names p e file).
 Definition s_hd (v : version) (p : profile) (e : endian) (file : bytes) (ds : list dirent) := get_stream file ds ST_HANDLE_DATA (read_handle_data v p e file).
+Definition s_ms (e : endian) (file : bytes) (ds : list dirent) := get_stream file ds ST_MISC_INFO (fun s => lift (read_misc_info e s)).
+Definition s_raw (file : bytes) (ds : list dirent) (ty : Z) : res bytes := raw_stream file ds ty.
 Definition s_ex (e : endian) (file : bytes) (ds : list dirent) := get_stream file ds ST_EXCEPTION (fun s => lift (read_exception e s)).
 Definition f_exp (v : version) (ex : res (Z * (Z * Z))) : field :=
   match ex with Ok (n, _) => fld (fun _ => []) (exception_print v n) | _ => FOk [] end.
@@ -58,17 +60,56 @@ Definition f_exc (v : version) (e : endian) (file : bytes) (si : res Z) (ex : re
   | _ => FOk []
   end.
 
-(* field tags: 0 R  1 SI  2 TL  3 ML  4 UM  5 MEM  6 M64  7 MI  8 TI  9 TN  10 HD  11 EX  12 EXP  13 EXC *)
+(* thread list: count, contexts that parse (needs the system info), stacks readable at parse time *)
+Definition arch_of (si : res Z) : option Z := match si with Ok a => Some a | _ => None end.
+Definition thread_kinds (e : endian) (file : bytes) (si : res Z) (raws : list bytes) : list (option ctxkind) :=
+  map (thread_ctx_kind e file (arch_of si)) raws.
+Definition count_some {A} (l : list (option A)) : Z := blen (filter (fun o => match o with Some _ => true | None => false end) l).
+Definition f_tl (e : endian) (file : bytes) (si : res Z) (tl : res (list bytes)) : field :=
+  fld (fun raws => [blen raws; count_some (thread_kinds e file si raws); blen (filter (thread_stack_ok e file) raws)]) tl.
+Definition f_tlp (v : version) (e : endian) (file : bytes) (si : res Z) (tl : res (list bytes)) : field :=
+  match tl with
+  | Ok raws => fld (fun _ => []) (threads_print v (thread_kinds e file si raws))
+  | _ => FOk []
+  end.
+(* misc info: version and the number of xstate features its iterator yields (-1: no xstate data) *)
+Definition misc_result (p : profile) (ms : res (Z * Z)) : res (list Z) :=
+  rbind ms (fun x => if fst x =? 5 then rbind (xstate_iter p (snd x)) (fun l => Ok [5; blen l]) else Ok [fst x; -1]).
+Definition f_ms (p : profile) (ms : res (Z * Z)) : field := fld (fun l => l) (misc_result p ms).
+(* linux text streams *)
+Definition kv_len (kv : bytes * bytes) : Z := blen (fst kv) + blen (snd kv).
+Definition f_kv (sep : Z) (s : res bytes) : field :=
+  fld (fun b => let kvs := linux_kv sep b in [blen kvs; fold_right Z.add 0 (map kv_len kvs)]) s.
+Definition f_lines (s : res bytes) : field := fld (fun b => [blen (linux_lines b)]) s.
+(* memory reads at the edges of the first eight regions: u64 then u8 at each of six addresses *)
+Definition probe_addrs (base size : Z) : list Z :=
+  map wrap64 [base; base + size - 1; base + size; base - 1; base + size / 2; base + size - 8].
+Definition bit (o : option Z) : Z := match o with Some _ => 1 | None => 0 end.
+Definition region_probes (e : endian) (file : bytes) (d : bytes) : list Z :=
+  let base := val e (sub d 0 8) in let size := val e (sub d 8 4) in let rva := val e (sub d 12 4) in
+  let region := sub file rva size in
+  flat_map (fun a => [bit (mem_read 8 e base region a); bit (mem_read 1 e base region a)]) (probe_addrs base size).
+Definition f_ma (e : endian) (file : bytes) (mem : res (list bytes)) : field :=
+  fld (fun regions => flat_map (region_probes e file) (firstn 8 regions)) mem.
+
+(* field tags: 0 R  1 SI  2 TL  3 ML  4 UM  5 MEM  6 M64  7 MI  8 TI  9 TN  10 HD  11 EX  12 EXP  13 EXC
+   14 TLP  15 MS  16 LC  17 LS  18 LR  19 LE  20 LL  21 MA *)
 Definition run_case (v : version) (p : profile) (file : bytes) : c01_out :=
   match read_header file with
   | Ok (e, ds) =>
-      {| o_fields := [(0, FOk [blen ds]); (1, fld one (snd (s_si e file ds))); (2, fld one (snd (s_tl p e file ds)));
+      {| o_fields := [(0, FOk [blen ds]); (1, fld one (snd (s_si e file ds))); (2, f_tl e file (snd (s_si e file ds)) (snd (s_tl p e file ds)));
                       (3, fld one (snd (s_ml p e file ds))); (4, fld one (snd (s_um p e file ds)));
-                      (5, fld one (snd (s_mem p e file ds))); (6, fld one (snd (s_m64 p e file ds)));
+                      (5, fld (fun l => [blen l]) (snd (s_mem p e file ds))); (6, fld one (snd (s_m64 p e file ds)));
                       (7, fld one (snd (s_mi p e file ds))); (8, fld one (snd (s_ti p e file ds)));
                       (9, fld one (snd (s_tn p e file ds))); (10, fld two (snd (s_hd v p e file ds)));
                       (11, f_ex e file (snd (s_si e file ds)) (snd (s_ex e file ds))); (12, f_exp v (snd (s_ex e file ds)));
-                      (13, f_exc v e file (snd (s_si e file ds)) (snd (s_ex e file ds)))];
+                      (13, f_exc v e file (snd (s_si e file ds)) (snd (s_ex e file ds)));
+                      (14, f_tlp v e file (snd (s_si e file ds)) (snd (s_tl p e file ds)));
+                      (15, f_ms p (snd (s_ms e file ds)));
+                      (16, f_kv 58 (s_raw file ds ST_LINUX_CPU)); (17, f_kv 58 (s_raw file ds ST_LINUX_STATUS));
+                      (18, f_kv 61 (s_raw file ds ST_LINUX_LSB)); (19, f_kv 61 (s_raw file ds ST_LINUX_ENVIRON));
+                      (20, f_lines (s_raw file ds ST_MOZ_LIMITS));
+                      (21, f_ma e file (snd (s_mem p e file ds)))];
          o_ledger := fst (s_tl p e file ds) ++ fst (s_ml p e file ds) ++ fst (s_um p e file ds) ++ fst (s_mem p e file ds)
                      ++ fst (s_m64 p e file ds) ++ fst (s_mi p e file ds) ++ fst (s_ti p e file ds) ++ fst (s_tn p e file ds)
                      ++ fst (s_hd v p e file ds) |}
